@@ -69,8 +69,13 @@ BIG_CONNECT = [(ka, r, n, k) for ka in (False, True) for (r, n) in ((1500, 1099)
                for k in ("refused", "unreach")]
 
 
+# the same object used by OVERLAPPING requests in one event loop and then again in a later one (a second asyncio.run)
+TWO_LOOPS = [(tr, ka, r, f2) for tr in ("udp", "tcp") for ka in (False, True) for r in (0, 2)
+             for f2 in ("ok", "drop_first", "drop_all")]
+
+
 def n_cases(tier):
-    return n_sweep(tier) + N_RANDOM[tier] + len(BIG_RETRIES) + len(BIG_CONNECT)
+    return n_sweep(tier) + N_RANDOM[tier] + len(BIG_RETRIES) + len(BIG_CONNECT) + len(TWO_LOOPS)
 
 
 BATCH = 16
@@ -180,6 +185,10 @@ def make_case(tier, seed, index):
     if index >= ns + N_RANDOM[tier]:
         # a very large (legal) retry budget against a silent peer / a peer that only sends garbage
         bi = index - ns - N_RANDOM[tier]
+        if bi >= len(BIG_RETRIES) + len(BIG_CONNECT):
+            tr, ka, r, f2 = TWO_LOOPS[bi - len(BIG_RETRIES) - len(BIG_CONNECT)]
+            return {"kind": "twoloops", "transport": tr, "keep_alive": ka, "timeout": 0.5, "retries": r, "second": f2,
+                    "pre": 0, "level": "execute"}
         if bi >= len(BIG_RETRIES):
             ka, r, n, k = BIG_CONNECT[bi - len(BIG_RETRIES)]
             cf = {"k": k, "d": 0.0}
@@ -240,6 +249,8 @@ def make_case(tier, seed, index):
         connects = [{"k": "ok", "d": 0.0} for _ in range(n_pre_conn)] + [connect_outcome(k, rnd) for k in conn_kinds]
     case = {"kind": kind, "transport": tr, "keep_alive": ka, "timeout": tau, "retries": r, "pre": pre,
             "level": level, "cmd": cmd, "script": script, "faults": faults, "connects": connects}
+    if kind == "random" and rnd.random() < 0.2:
+        case["by_name"] = True   # the inverter is addressed by host name (answers come from its numeric address)
     if kind == "random" and rnd.random() < 0.3:
         # a TROUBLED request first (its own fault script; its outcome is not judged here): whatever happened to it,
         # the request under test still has to terminate within its own budget and timing
@@ -256,6 +267,12 @@ SHRINK_FROZEN = ("script",)
 
 def simplify(case):
     out = []
+    if case["kind"] == "twoloops":
+        return out
+    if case.get("by_name"):
+        c = dict(case)
+        c.pop("by_name")
+        out.append(c)
     if case.get("trouble") is not None:
         c = dict(case)
         c.pop("trouble")
@@ -279,7 +296,44 @@ def simplify(case):
     return out
 
 
+def run_twoloops(case):
+    tr, tau, r, ka = case["transport"], case["timeout"], case["retries"], case["keep_alive"]
+    world = World(max_steps=20_000)
+    dev = SimInverter(mode="stamp")
+    world.net.add_device(C.HOST, C.port_of(tr), dev)
+    proto = C.make_protocol(tr, tau, r, ka)
+    recs = []
+
+    async def pair(base, faults, default):
+        world.net.begin_script(faults, default)
+        out = await asyncio.gather(*[C.do_execute(world, proto, {"op": "read", "reg": base + i, "count": 2}, f"r{base + i}")
+                                     for i in range(3)])
+        recs.extend(out)
+
+    violations = []
+    status, _ = C.run_world(world, pair(100, [], {"k": "ok"}))
+    if status == "ok":
+        f2 = {"ok": ([], {"k": "ok"}), "drop_first": ([{"k": "drop"}], {"k": "ok"}), "drop_all": ([], {"k": "drop"})}[case["second"]]
+        status, _ = C.run_world(world, pair(200, f2[0], f2[1]))
+    if status != "ok":
+        violations.append(viol(f"C04:hang:{tr}:second-loop", f"overlapping requests in two successive event loops: {status}"))
+    for rec in recs:
+        if rec["outcome"] not in ("result", "rejected", "failed", "maxretries"):
+            violations.append(viol(f"C04:outcome:{tr}:{rec['outcome']}",
+                                   f"overlapping requests in two successive event loops: {rec['label']} ended with "
+                                   f"{rec['outcome']}: {rec.get('exc')!r}"))
+            break
+        if rec["t1"] - rec["t0"] > 3 * (r + 1) * tau + 1e-9:
+            violations.append(viol(f"C04:late:{tr}", f"{rec['label']} took {rec['t1'] - rec['t0']} (3 queued requests, "
+                                   f"retries={r}, timeout={tau})"))
+            break
+    sig = ("twoloops", tr, ka, r, case["second"])
+    return C.package(world, case, violations, sig, True, {"two_loop_cases": 1})
+
+
 def run_case(case):
+    if case["kind"] == "twoloops":
+        return run_twoloops(case)
     goodwe, gp, ge = C.goodwe_mods()
     tr = case["transport"]
     tau = case["timeout"]
@@ -290,16 +344,18 @@ def run_case(case):
         world.net.default_fault = case["default"]
     dev = SimInverter(mode="stamp")
     world.net.add_device(C.HOST, C.port_of(tr), dev)
+    world.net.add_host(C.HOSTNAME, C.HOST)
+    host = C.HOSTNAME if case.get("by_name") else C.HOST
     state = {}
 
     if case["level"] == "inverter":
-        inv = goodwe.ET(C.HOST, C.port_of(tr), 0xF7, tau, r)
+        inv = goodwe.ET(host, C.port_of(tr), 0xF7, tau, r)
         inv.set_keep_alive(case["keep_alive"])
 
         async def one(label):
             return await C.do_call(world, label, lambda: inv.read_sensor("modbus-%d" % case["cmd"]["reg"]))
     else:
-        proto = C.make_protocol(tr, tau, r, case["keep_alive"])
+        proto = C.make_protocol(tr, tau, r, case["keep_alive"], host=host)
 
         async def one(label):
             return await C.do_execute(world, proto, case["cmd"], label)
